@@ -9,6 +9,7 @@ import (
 	"io"
 	"net/http"
 	"net/http/httptest"
+	"net/url"
 	"os"
 	"path/filepath"
 	"sort"
@@ -348,4 +349,43 @@ func queryEscape(v string) string {
 		}
 	}
 	return sb.String()
+}
+
+// hostStyle turns the path-style requests the harness builds into virtual-host requests for a
+// server configured with a host-bucket base: "/<bucket>/<rest>" becomes host "<bucket>.<base>",
+// path "/<rest>". Buckets that cannot be a single host label (and "/") stay path-style on the
+// bare base, which such a server must serve path-style.
+type hostStyle struct {
+	inner http.Handler
+	base  string
+}
+
+func (h hostStyle) ServeHTTP(w http.ResponseWriter, r *http.Request) {
+	esc := r.URL.EscapedPath()
+	r.Host = h.base
+	if len(esc) > 1 && esc[0] == '/' {
+		seg, rest := esc[1:], ""
+		if i := strings.IndexByte(seg, '/'); i >= 0 {
+			seg, rest = seg[:i], seg[i:]
+		}
+		label := true
+		for i := 0; i < len(seg); i++ {
+			c := seg[i]
+			if !(c >= 'a' && c <= 'z' || c >= '0' && c <= '9' || c == '-') {
+				label = false
+			}
+		}
+		if label && seg != "" {
+			if rest == "" {
+				rest = "/"
+			}
+			if u, err := url.Parse("http://" + seg + "." + h.base + rest); err == nil {
+				u.RawQuery = r.URL.RawQuery
+				r.URL = u
+				r.Host = seg + "." + h.base
+				r.RequestURI = ""
+			}
+		}
+	}
+	h.inner.ServeHTTP(w, r)
 }
